@@ -16,8 +16,8 @@ EXPLANATION = ("Progress of the producer. R1 (drain => published): whenever the 
                " R1c: 'empty' is reported only right after the consumer's cache was refreshed with an acquire load. R6/R7 (= C20.R5, C05.R2): cache reload, hold-back exemptions. Configuration C (QUILL_X86ARCH) is analysed in both tiers."
                ' R4h: a record not larger than the configured maximum is granted or rejected, never refused for ever: the maximum is validated / normalised to a power of two or the rejection test rounds the record size (violated on the pinned tree for a non-power-of-two maximum: known finding, DESIGN 5.21).'
                ' R8 (= C02.R2): growth publishes the node this call allocated, constructed before the store (an allocation failure is not swallowed into a refusal).')
-NOT_DECIDED = ("The finite-poll bound under all histories, unbounded queues whose maximum capacity is not a power of two "
-               "(configuration arithmetic), fairness of the OS scheduler.")
+NOT_DECIDED = ("The finite-poll bound under all histories, fairness of the OS scheduler. For a maximum capacity that is not a power of "
+               "two R4h decides the structural part (refusal and rejection tests disagree) and the tree violates it: known finding, DESIGN 5.21.")
 ASSUMPTIONS = ["the backend keeps polling (C07/C10 cover its liveness)", "a decoded record has non-zero size (accumulator guard idiom)"]
 
 BQ = "quill::detail::BoundedSPSCQueueImpl<unsigned long>"
